@@ -198,6 +198,14 @@ def _gen_variants(rng, gene, contig_seq, opts):
         v["region"] = _region_of(gene, g)
         taken.append(span)
         gene["variants"][v["id"]] = v
+    # multi-allelic sites: a second substitution at the position of an existing one
+    if opts.get("multiallelic"):
+        snps = [v for v in gene["variants"].values() if v["kind"] == "snp"]
+        for v in snps[: rng.randint(1, 2)]:
+            alts = [x for x in "ACGT" if x not in (v["ref"], v["alt"])]
+            vid += 1
+            w = dict(v, alt=rng.choice(alts), id=f"v{vid}")
+            gene["variants"][w["id"]] = w
     # functional / silent split: at least half functional
     # (aldy only merges multi-nucleotide substitutions that are core variants,
     # sam.py `_multi_sites`, so generated MNPs are always functional)
@@ -276,6 +284,24 @@ def _gen_alleles(rng, gene, opts):
         # a right fusion may carry its own core variant in the retained part
         alleles.append({"name": f"{num}.001", "kind": "rfusion", "brk": brk, "vars": []})
         num += 1
+    # a haplotype cannot carry two variants at one position (multi-allelic sites)
+    for a in alleles:
+        seen_pos, keep = set(), []
+        for v in a["vars"]:
+            if vs[v]["g"] in seen_pos:
+                continue
+            seen_pos.add(vs[v]["g"])
+            keep.append(v)
+        a["vars"] = keep
+    # ... which may have made two alleles identical: keep the first of each variant set
+    uniq, seen_sets = [], set()
+    for a in alleles:
+        key = (a["kind"], a.get("brk"), tuple(sorted(a["vars"])))
+        if a["kind"] == "normal" and key in seen_sets:
+            continue
+        seen_sets.add(key)
+        uniq.append(a)
+    alleles = uniq
     gene["alleles"] = alleles
     used = {v for a in alleles for v in a["vars"]}
     gene["unused_variants"] = {k: v for k, v in gene["variants"].items() if k not in used}
@@ -700,6 +726,23 @@ def sample_reads(world, sample):
                     present = _intervals(gene["pregions"], flags, M, M)
                     _tile(cols, L, step, phase_rng.randint(0, step - 1), present,
                           f"{gene['name']}u{ui}p{c}", reads)
+    # depth noise: thin out the reads starting inside a region of one locus
+    for th in sample.get("thin", []):
+        gene = next(g for g in world["genes"] if g["name"] == th["gene"])
+        regs = gene["regions"] if th.get("which", "gene") == "gene" else gene["pregions"]
+        if not regs:
+            continue
+        a, b = next((a, b) for nm, a, b in regs if nm == th["region"])
+        trng = random.Random(f"{sample.get('phase_seed', 0)}:thin:{th['gene']}:{th['region']}")
+        tagp = f"{th['gene']}u"
+        reads = [r for r in reads
+                 if not (a <= r[0] < b and r[3].startswith(tagp) and trng.random() < th["p"])]
+    # neutral region: two copies
+    c0, c1 = world["neutral"]
+    for c in range(sample.get("neutral_copies", 2)):
+        cols = _haplotype(contig, c0 - M, c1 + M, [])
+        _tile(cols, L, step, phase_rng.randint(0, step - 1), [[c0 - M, c1 + M]],
+              f"n{c}", reads)
     # aligner-style soft clips: a fraction of the reads gets its first / last bases clipped
     if sample.get("softclip"):
         srng = random.Random(f"{sample.get('phase_seed', 0)}:softclip")
@@ -720,23 +763,6 @@ def sample_reads(world, sample):
             else:
                 out.append((rs, ops_, seq, nm))
         reads = out
-    # depth noise: thin out the reads starting inside a region of one locus
-    for th in sample.get("thin", []):
-        gene = next(g for g in world["genes"] if g["name"] == th["gene"])
-        regs = gene["regions"] if th.get("which", "gene") == "gene" else gene["pregions"]
-        if not regs:
-            continue
-        a, b = next((a, b) for nm, a, b in regs if nm == th["region"])
-        trng = random.Random(f"{sample.get('phase_seed', 0)}:thin:{th['gene']}:{th['region']}")
-        tagp = f"{th['gene']}u"
-        reads = [r for r in reads
-                 if not (a <= r[0] < b and r[3].startswith(tagp) and trng.random() < th["p"])]
-    # neutral region: two copies
-    c0, c1 = world["neutral"]
-    for c in range(sample.get("neutral_copies", 2)):
-        cols = _haplotype(contig, c0 - M, c1 + M, [])
-        _tile(cols, L, step, phase_rng.randint(0, step - 1), [[c0 - M, c1 + M]],
-              f"n{c}", reads)
     return reads
 
 
